@@ -261,7 +261,9 @@ def build_tissue(spec, frame=0):
     lens_cells = []     # (key, ridge)
     if spec.get("lens"):
         lr = _rng(spec, "lens")
-        cand = [rk for rk in rkeys if len(ridges[rk]) == 2 and len(ridge_pts[rk]) >= 5]
+        border_cap = bool(spec.get("lens_border"))
+        cand = [rk for rk in rkeys if len(ridge_pts[rk]) >= 5 and
+                (len(ridges[rk]) == 2 or (border_cap and len(ridges[rk]) == 1))]
         lr.shuffle(cand)
         for rk in cand[:spec["lens"]]:
             ids = ridge_pts[rk]
@@ -270,9 +272,14 @@ def build_tissue(spec, frame=0):
             d = Q_ - P_
             L = float(np.hypot(*d))
             nvec = np.array([-d[1], d[0]]) / L
-            cB = ridges[rk][1]
-            cenB = np.mean([jpos[v] for v in cellv[cB]], axis=0)
-            sgn = 1.0 if float(np.dot(cenB - (P_ + Q_) / 2, nvec)) >= 0 else -1.0
+            internal = len(ridges[rk]) == 2
+            # the side of the second cell; on a border ridge (a cap cell on the tissue border, closed by the
+            # straight chord P-Q) it is the side away from the only cell
+            cref = ridges[rk][1] if internal else ridges[rk][0]
+            cen = np.mean([jpos[v] for v in cellv[cref]], axis=0)
+            sgn = 1.0 if float(np.dot(cen - (P_ + Q_) / 2, nvec)) >= 0 else -1.0
+            if not internal:
+                sgn = -sgn
             h = 0.22 * L
             arc2 = []
             inner = ids[i + 1:j]
@@ -281,9 +288,10 @@ def build_tissue(spec, frame=0):
                 bump = h * math.sin(math.pi * t)
                 base = np.array(coords[pid])
                 coords[pid] = tuple(base - sgn * bump * nvec)          # first arc: towards the first cell
-                coords[nxt] = tuple(base + sgn * bump * nvec)          # second arc: towards the second cell
-                arc2.append(nxt)
-                nxt += 1
+                if internal:
+                    coords[nxt] = tuple(base + sgn * bump * nvec)      # second arc: towards the second cell
+                    arc2.append(nxt)
+                    nxt += 1
             lens_arc2[rk] = (i, j, arc2)
             lens_cells.append((f"L{len(lens_cells)}", rk))
     # rounding + uniqueness
@@ -346,7 +354,7 @@ def build_tissue(spec, frame=0):
         for a, b in zip(cyc, cyc[1:] + cyc[:1]):
             rk = (min(a, b), max(a, b))
             ids = ridge_pts[rk]
-            if rk in lens_arc2 and c == ridges[rk][1]:
+            if rk in lens_arc2 and len(ridges[rk]) == 2 and c == ridges[rk][1]:
                 i_, j_, arc2_ = lens_arc2[rk]
                 ids = ids[:i_ + 1] + arc2_ + ids[j_:]      # the second cell runs along the second arc
             out.append(a)
@@ -490,6 +498,7 @@ def random_spec(rng, *, max_side=6, kmax=40, for_solver=False, frames=1, min_rid
             spec["coincident"] = rng.choice([1, 1, 2])      # mesh histories only: a zero-length edge has no direction
         if rng.random() < 0.12 and spec["pts"].get("mode") != "list":
             spec["lens"] = rng.choice([1, 1, 2])
+            spec["lens_border"] = rng.random() < 0.5     # also cap cells on the border, closed by a two-point chord
             if spec["pts"]["mode"] == "const":
                 spec["pts"] = {"mode": "const", "k": max(5, spec["pts"]["k"])}
             else:
